@@ -57,3 +57,119 @@ package generator
 //@       ==> (rejects(emitted(out), sig1(v.fieldName, ptr_to(x))) <==> !(accept_num(v, x) && mult_ok(v.multipleOf, x)))
 //@   ensures [C05,C19] nil-never-checked: v.isNillable ==> !rejects(emitted(out), sig1(v.fieldName, nil_ptr())) && !panics(emitted(out), sig1(v.fieldName, nil_ptr()))
 //@   ensures [C19] no-panic: forall x int :: !panics(emitted(out), sig1(v.fieldName, v.isNillable ? ptr_to(x) : x))
+
+// ---- strings ---------------------------------------------------------------
+// A generated string value is gstr(bytes, characters, matches-the-pattern);
+// regexp.MatchString is the schema's notion of "matches" (assumed).
+//@ spec accept_str(v, nr, mt) = (v.minLength > 0 ==> nr >= v.minLength) && (v.maxLength > 0 ==> nr <= v.maxLength) && (v.pattern != "" ==> mt)
+//@ spec str_val(nb, nr) = 0 <= nr && nr <= nb && nb <= 4 * nr
+
+//@ func (*stringValidator).generate
+//@   props C06 C19 C01 C02
+//@   option e2e string accept_str(v, runes_of(x), matched_of(x))
+//@   shape out = emitter
+//@   shape v.isNillable = true | false
+//@   requires valid-schema: v.minLength >= 0 && v.maxLength >= 0
+//@   assigns *out
+//@   ensures [C01,C19] parses: parses(emitted(out)) && !mentions(emitted(out), "j") && !mentions(emitted(out), "raw") && out.indent == old(out.indent)
+//@   ensures [C06,C02] value: forall nb int :: forall nr int :: forall mt bool :: !v.isNillable && str_val(nb, nr)
+//@       ==> (rejects(emitted(out), sig1(v.fieldName, gstr(nb, nr, mt))) <==> !accept_str(v, nr, mt))
+//@   ensures [C06,C02] ptr: forall nb int :: forall nr int :: forall mt bool :: v.isNillable && str_val(nb, nr)
+//@       ==> (rejects(emitted(out), sig1(v.fieldName, ptr_to(gstr(nb, nr, mt)))) <==> !accept_str(v, nr, mt))
+//@   ensures [C06,C19] nil-never-checked: v.isNillable ==> !rejects(emitted(out), sig1(v.fieldName, nil_ptr())) && !panics(emitted(out), sig1(v.fieldName, nil_ptr()))
+//@   ensures [C19] no-panic: forall nb int :: forall nr int :: forall mt bool :: str_val(nb, nr) ==> !panics(emitted(out), sig1(v.fieldName, v.isNillable ? ptr_to(gstr(nb, nr, mt)) : gstr(nb, nr, mt)))
+//@   ensures [C01] regexp-import: uses_pkg(emitted(out), "regexp") <==> v.pattern != ""
+
+// ---- arrays ----------------------------------------------------------------
+// garr(k, isnil, n): the field holds arrays nested k deep; the level-k array
+// reached by the emitted loops is nil or has length n (proved per element).
+//@ spec accept_arr(v, n, isnil) = isnil || ((v.minItems > 0 ==> n >= v.minItems) && (v.maxItems > 0 ==> n <= v.maxItems))
+
+//@ func (*arrayValidator).generate
+//@   props C07 C19 C01 C02
+//@   option e2e array accept_arr(v, len_of(x), isnil_of(x))
+//@   shape out = emitter
+//@   shape v.arrayDepth = 1 | 2 | 3 | 4
+//@   requires valid-schema: v.minItems >= 0 && v.maxItems >= 0
+//@   assigns *out
+//@   ensures [C01,C19] parses: parses(emitted(out)) && !mentions(emitted(out), "j") && !mentions(emitted(out), "raw") && out.indent == old(out.indent)
+//@   ensures [C07,C02] level: forall alen int :: forall anil bool :: alen >= 0
+//@       ==> (rejects(emitted(out), sig1(v.fieldName, garr(v.arrayDepth, anil, alen))) <==> !accept_arr(v, alen, anil))
+//@   ensures [C19] no-panic: forall alen int :: forall anil bool :: alen >= 0 ==> !panics(emitted(out), sig1(v.fieldName, garr(v.arrayDepth, anil, alen)))
+
+// ---- required --------------------------------------------------------------
+// graw(isnil, key, has, vnil): the raw key map is nil (document was null) or has
+// / has not the key; vnil: the value under the key is null.
+//@ func (*requiredValidator).generate
+//@   props C04 C19 C01
+//@   shape out = emitter
+//@   assigns *out
+//@   ensures [C01,C19] parses: parses(emitted(out)) && !mentions(emitted(out), "j") && !mentions(emitted(out), "plain") && out.indent == old(out.indent)
+//@   ensures [C04] presence: forall rnil bool :: forall has bool :: forall vnil bool :: (rnil ==> !has)
+//@       ==> (rejects(emitted(out), sigma("raw", graw(rnil, v.jsonName, has, vnil))) <==> !rnil && !has)
+//@   ensures [C19] no-panic: forall rnil bool :: forall has bool :: forall vnil bool :: !panics(emitted(out), sigma("raw", graw(rnil, v.jsonName, has, vnil)))
+
+//@ func (*requiredValidator).desc
+//@   props C04 C19
+//@   ensures [C04] before-decode: result.beforeJSONUnmarshal && result.hasError
+
+// ---- defaults --------------------------------------------------------------
+// The literal itself is rendered by litter (external): assumed contract.
+//@ func (*defaultValidator).dumpDefaultValue
+//@   trusted the default literal is rendered by github.com/sanity-io/litter and reflect; result is an opaque string, nothing is modified
+//@   option pure
+//@   shape result0 = anystring
+//@   assigns nothing
+
+//@ func (*defaultValidator).generate
+//@   props C09 C19 C01
+//@   shape out = emitter
+//@   assigns *out
+//@   ensures [C01,C19] parses: parses(emitted(out)) && !mentions(emitted(out), "j") && out.indent == old(out.indent)
+//@   ensures [C09] applies: forall rnil bool :: forall has bool :: forall vnil bool :: (rnil ==> !has)
+//@       ==> ((assigned(emitted(out), sigma("raw", graw(rnil, v.jsonName, has, vnil), "plain", gobj(), "plain." + v.fieldName, gobj()), "plain." + v.fieldName)
+//@             || assigned(emitted(out), sigma("raw", graw(rnil, v.jsonName, has, vnil), "plain", gobj(), "plain." + v.fieldName, gobj()), "plain")) <==> (!has || vnil))
+//@   ensures [C09,C19] never-rejects: forall rnil bool :: forall has bool :: forall vnil bool ::
+//@       !rejects(emitted(out), sigma("raw", graw(rnil, v.jsonName, has, vnil), "plain", gobj(), "plain." + v.fieldName, gobj()))
+//@       && !panics(emitted(out), sigma("raw", graw(rnil, v.jsonName, has, vnil), "plain", gobj(), "plain." + v.fieldName, gobj()))
+
+//@ func (*defaultValidator).desc
+//@   props C09 C04
+//@   ensures [C09] needs-raw: result.requiresRawAfter && !result.beforeJSONUnmarshal
+
+// ---- null ------------------------------------------------------------------
+//@ func (*nullTypeValidator).generate
+//@   props C03 C19 C01
+//@   shape out = emitter
+//@   shape v.arrayDepth = 0 | 1 | 2 | 3 | 4
+//@   assigns *out
+//@   ensures [C01,C19] parses: parses(emitted(out)) && !mentions(emitted(out), "j") && !mentions(emitted(out), "raw") && out.indent == old(out.indent)
+//@   ensures [C03] null-only: forall isnil bool :: rejects(emitted(out), sig1(v.fieldName, gnilable(v.arrayDepth, isnil))) <==> !isnil
+//@   ensures [C19] no-panic: forall isnil bool :: !panics(emitted(out), sig1(v.fieldName, gnilable(v.arrayDepth, isnil)))
+
+// ---- anyOf -----------------------------------------------------------------
+//@ func lowerFirst
+//@   props C18 C11
+//@   option pure
+//@   requires nonempty: len(s) >= 1
+//@   assigns nothing
+
+//@ func upperFirst
+//@   props C18 C11
+//@   option pure
+//@   requires nonempty: len(s) >= 1
+//@   assigns nothing
+
+//@ func (*anyOfValidator).generate
+//@   props C11 C19 C01
+//@   shape out = emitter
+//@   shape v.elemCount = 1 | 2 | 3 | 4
+//@   requires named: v.fieldName != ""
+//@   assigns *out
+//@   ensures [C01,C19] parses: parses(emitted(out)) && !mentions(emitted(out), "j") && !mentions(emitted(out), "plain") && out.indent == old(out.indent)
+//@   ensures [C11] all-fail: rejects(emitted(out), sigma("value", gobj())) <==> all_branches_failed(emitted(out), v.elemCount)
+//@   ensures [C19] no-panic: !panics(emitted(out), sigma("value", gobj()))
+
+//@ func (*anyOfValidator).desc
+//@   props C11
+//@   ensures [C11] before-decode: result.beforeJSONUnmarshal && result.hasError
